@@ -191,7 +191,23 @@ def worker(rel, qual, index):
                 break
     if dec is not None:
         ob = dec
-        res.update(verdict='killed-P', why='{} L{} {} {}'.format(ob.kind, ob.line, ob.verdict, ob.name[:100]), nbad=len(bad))
+        # the verdict rule of checks/proofs.py: a decisive failure is a VIOLATION only if it is a refutation, the clause is still
+        # expressible, and no auxiliary obligation of the function fails (intact scaffolding); otherwise the function degrades
+        aux = [o for o in obs if o.kind not in proofs.DECISIVE and o.verdict is None]
+        if ob.verdict == 'refuted' and 'not expressible' not in ob.name:
+            for o in aux:
+                if time.time() - t0 > budget:
+                    break
+                solve.discharge([o], procs=1)
+                if o.verdict != 'proved':
+                    bad.append(o)
+                    break
+        naux = [o for o in obs if o.kind not in proofs.DECISIVE and o.verdict not in (None, 'proved')]
+        if ob.verdict != 'refuted' or 'not expressible' in ob.name or naux:
+            res.update(verdict='degraded', why='decisive {} L{} {} fails but the scaffolding is not intact ({} aux failing){}'.format(
+                ob.kind, ob.line, ob.verdict, len(naux), ' [not expressible]' if 'not expressible' in ob.name else ''), nbad=len(bad))
+        else:
+            res.update(verdict='killed-P', why='{} L{} {} {}'.format(ob.kind, ob.line, ob.verdict, ob.name[:100]), nbad=len(bad))
     elif bad:
         ob = bad[0]
         res.update(verdict='degraded', why='{} L{} {} {}'.format(ob.kind, ob.line, ob.verdict, ob.name[:100]), nbad=len(bad))
